@@ -38,9 +38,12 @@ pub fn unary_case(a: i128, f: u8, l: &mut Local) {
     let c = ((a < 0) as u64) << 7 | ((a == 0) as u64) << 6 | (integral as u64) << 5 | f as u64;
     if l.class(c) { l.sample(c, json!({"coeff": a.to_string(), "scale": f, "floor": fl.to_string(), "ceil": ce.to_string(), "trunc": tq.to_string(), "fract": [tr.to_string(), f], "magnitude": mag})); }
     l.distinct += 1;
-    chk(l, "floor", cls, catch(|| dv(d.floor())), (fl, 0), &mk);
-    chk(l, "ceil", cls, catch(|| dv(d.ceil())), (ce, 0), &mk);
-    chk(l, "trunc", cls, catch(|| dv(d.trunc())), (tq, 0), &mk);
+    // floor / ceil / trunc: the statement fixes the (integral) VALUE; it names the scale only for fract, neg and
+    // abs. A result written with fractional zeros (3.00) is therefore accepted, any other value is not.
+    let norm = |(c, sc): (i128, u8), want: i128| -> (i128, u8) { if sc <= 18 && alpha::pow10(sc as u32).checked_mul(want) == Some(c) { (want, 0) } else { (c, sc) } };
+    chk(l, "floor", cls, catch(|| norm(dv(d.floor()), fl)), (fl, 0), &mk);
+    chk(l, "ceil", cls, catch(|| norm(dv(d.ceil()), ce)), (ce, 0), &mk);
+    chk(l, "trunc", cls, catch(|| norm(dv(d.trunc()), tq)), (tq, 0), &mk);
     // fract carries d's sign and scale (a zero fraction of a scale-0 value is ZERO)
     chk(l, "fract", cls, catch(|| dv(d.fract())), (tr, f), &mk);
     chk(l, "neg", cls, catch(|| dv(-d)), (-a, f), &mk);
@@ -62,7 +65,9 @@ pub fn unary_case(a: i128, f: u8, l: &mut Local) {
     chk(l, "Zero::is_zero", cls, catch(|| Zero::is_zero(&d)), a == 0, &mk);
     chk(l, "One::is_one", cls, catch(|| One::is_one(&d)), a == alpha::pow10(f as u32), &mk);
     chk(l, "Signed::abs", cls, catch(|| dv(Signed::abs(&d))), (a.abs(), f), &mk);
-    chk(l, "Signed::signum", cls, catch(|| dv(Signed::signum(&d))), (a.signum(), 0), &mk);
+    // "signum in {-1,0,1}": the VALUE is fixed, not the number of fractional digits it is written with
+    // (a rework returning -1.00 for -9.38 raised a false alarm here; DESIGN §9 soundness round 2)
+    chk(l, "Signed::signum", cls, catch(|| norm(dv(Signed::signum(&d)), a.signum())), (a.signum(), 0), &mk);
     chk(l, "Signed::is_positive", cls, catch(|| Signed::is_positive(&d)), a > 0, &mk);
     chk(l, "Signed::is_negative", cls, catch(|| Signed::is_negative(&d)), a < 0, &mk);
 }
